@@ -4,7 +4,7 @@ from .. import common, gen, oracle, modelio, pipefam, pool
 
 RULE = ("annotation pairs from harness/vh/gen.py (chains, nesting, identical starts, duplicates, 1-bp and abutting TEs, "
         "TEs straddling region boundaries by -1/0/+1, genes at coordinate 1 / truncated left window, offsets up to 2^31-1, "
-        "shuffled rows) x window triples; non-trivial = at least one same-group overlap AND a TE placed on a region boundary; "
+        "shuffled rows) x window triples; every fifth pair in an output directory used before for another pair under other file names; non-trivial = at least one same-group overlap AND a TE placed on a region boundary; "
         "distinct = distinct canonical JSON of the case")
 
 
@@ -13,6 +13,11 @@ def cases_for(chk, n):
     cases = pipefam.load_corpus("C01")
     for _ in range(n):
         cases.append(gen.gen_pair(r))
+    # every fifth pair is processed in an output directory that was used before for the preceding pair, given under other file names
+    # (same stem before the first dot) and the same or a longer genome id: the numbers are those of the files given NOW
+    for i, c in enumerate(cases):
+        if i % 5 == 4 and "before" not in c:
+            c["before"] = {"case": {k: cases[i - 1][k] for k in ("genes", "tes", "windows")}, "genome": ["G", "G_v2"][(i // 5) % 2]}
     return cases
 
 
@@ -60,7 +65,7 @@ def report(chk, results, pid="C01"):
                 rep2 = pipefam.run_impl([small])[0]
                 pf2, _ = pipefam.check_c01_case(small, rep2, ("ok", {}))
                 chk.violation("density cell differs from covered-positions/region-length (or run failed / cells missing)",
-                              {"case": {k: small[k] for k in ("genes", "tes", "windows")}, "failures": pf2 or pf,
+                              {"case": {k: small[k] for k in ("genes", "tes", "windows", "before") if k in small}, "failures": pf2 or pf,
                                "original_case_size": [len(c["genes"]), len(c["tes"])],
                                "how_to_replay": "./check %s --replay <this file>" % pid},
                               signature=None)
